@@ -476,7 +476,9 @@ fn reports(prop: &str, fam: Family, ins: &Instruction, class: Class) -> bool {
         "C01" => matches!(fam, Family::Data | Family::Cpuid) && matches!(class, Gpr | Xmm | Mem | Seg | Rip),
         "C02" => matches!(fam, Family::Data) && class == Flags,
         "C03" => match fam {
-            Family::Branch => matches!(class, Rip | Gpr | Xmm | Mem | Seg | Flags),
+            // a jump that fails where the CPU completes it did not transfer control as the CPU does
+            // (CALL/RET are left out: their failures at the stack edges belong to the stack-slot finding)
+            Family::Branch => matches!(class, Rip | Gpr | Xmm | Mem | Seg | Flags | SpuriousErr),
             Family::CallRet => class == Rip,
             _ => false,
         },
@@ -639,7 +641,7 @@ impl HwMonitor {
                     Some(k) => format!("K:{}", k),
                     None => {
                         let base = format!("{:?}:{}:{}", d.class, form, d.key);
-                        if matches!(d.class, Class::SpuriousErr | Class::Panic) && (prop == "C06" || prop == "C05") {
+                        if matches!(d.class, Class::SpuriousErr | Class::Panic) && (prop == "C06" || prop == "C05" || prop == "C03") {
                             format!("?impl:{}|{}", form, base)
                         } else {
                             base
@@ -933,7 +935,14 @@ fn reset_machine(ax: &mut Axecutor, t: &Trial, want: &[Vec<u8>]) -> Result<(), S
 
 impl HwMonitor {
     fn persist_batch(&mut self, col: &mut Collector, rng: &mut Rng, n: u32) {
-        let forms = forms_of(&[Family::Data]);
+        // which instructions the one machine keeps executing depends on the property that owns the stratum
+        let fams: &[Family] = match self.prop {
+            "C03" => &[Family::Branch, Family::CallRet],
+            "C04" => &[Family::Stack, Family::CallRet],
+            "C06" => &[Family::Data, Family::Branch, Family::CallRet, Family::Stack],
+            _ => &[Family::Data],
+        };
+        let forms = forms_of(fams);
         let Some(base) = self.child_base(col) else { return };
         let mut machine: Option<Axecutor> = None;
         for _ in 0..n {
@@ -943,7 +952,7 @@ impl HwMonitor {
                 bytes = mutate_g2(rng, bytes);
             }
             let Some(ins) = decode(&bytes, CODE_RIP) else { continue };
-            if family(ins.mnemonic()) != Family::Data {
+            if !fams.contains(&family(ins.mnemonic())) {
                 continue;
             }
             let st = steer(rng, &ins, &bytes[..ins.len()], CODE_RIP, &SteerOpts::default());
